@@ -116,7 +116,9 @@ C06_Clauses(cfg, D) ==
                    \A i \in 1..cfg.n :
                      LET p == D.pipes[i] s == Slot(D, i) IN
                      /\ (p.okval >= 0 => ~s.iserr /\ s.tok = p.okval)
-                     /\ (p.fberr # 0 => s.iserr /\ p.fberr \in Range(s.errs))
+                     \* (the fallback's outcome REPLACES the attempts' errors: they are not in the slot next to it)
+                     /\ (p.fberr # 0 => s.iserr /\ p.fberr \in Range(s.errs)
+                                        /\ \A k \in 1..Len(p.outs) : p.outs[k].err \notin Range(s.errs))
                      /\ (p.eres # 0 => s.iserr /\ p.eres \in Range(s.errs))
                      /\ (p.fbs = <<>> /\ p.allfailed => s.iserr)
                      /\ (p.fbs = <<>> /\ p.allfailed /\ Len(p.outs) = N(cfg) /\ ~cfg.fb
@@ -162,7 +164,9 @@ C07_Clauses(cfg, D) ==
    slot          |-> (Applies /\ HasPost(D) /\ Len(D.posts[1].slots) = cfg.n) => \A i \in 1..cfg.n :
                         LET p == D.pipes[i] s == Slot(D, i) IN
                         /\ (p.okval >= 0 => ~s.iserr /\ s.tok = p.okval)
-                        /\ (p.fberr # 0 => s.iserr /\ p.fberr \in Range(s.errs))
+                        \* (the fallback's outcome REPLACES the attempts' errors: they are not in the slot next to it)
+                     /\ (p.fberr # 0 => s.iserr /\ p.fberr \in Range(s.errs)
+                                        /\ \A k \in 1..Len(p.outs) : p.outs[k].err \notin Range(s.errs))
                         /\ (p.eres # 0 => s.iserr /\ p.eres \in Range(s.errs))
                         /\ (p.fbs = <<>> /\ p.allfailed => s.iserr /\ Last(p.outs).err \in Range(s.errs))
   ]
